@@ -190,6 +190,22 @@ def job_closed_forms(tier, rng):
         cnt += 1; nontriv += int('rank1' not in label and label != 'product')
         if not ok and bad is None:
             bad = dict(state=label, rho=jsonable(rho))
+    # maximally entangled states under random local unitaries: the concurrence is 1 up to rounding (1 +- 4e-16); every derived measure must stay finite and at its maximum
+    n_me = 8000 if tier == 'quick' else 40000
+    psi0 = np.array([1, 0, 0, 1]) / np.sqrt(2)
+    for t in range(n_me):
+        UA = numqi.random.rand_haar_unitary(2, seed=int(rng.integers(0, 2 ** 31))); UB = numqi.random.rand_haar_unitary(2, seed=int(rng.integers(0, 2 ** 31)))
+        v = np.kron(UA, UB) @ psi0; rho = np.outer(v, v.conj())
+        try:
+            C = float(E.get_concurrence_2qubit(rho)); F = float(E.get_eof_2qubit(rho)); Gm = float(E.get_gme_2qubit(rho))
+            ok = np.isfinite([C, F, Gm]).all() and abs(C - 1) < 1e-7 and abs(F - math.log(2)) < 1e-6 and abs(Gm - 0.5) < 1e-3       # d GME / d C diverges at C = 1: a concurrence error of 1e-8 (square roots of eigenvalues) moves the GME by 1e-4
+        except Exception as ex:
+            if not from_repo(ex):
+                raise
+            ok = False
+        cnt += 1; nontriv += 1
+        if not ok and bad is None:
+            bad = dict(state='maximally_entangled_under_local_unitaries', rho=jsonable(rho))
     return [ob(f'{PROP}.two_qubit_closed_forms', 'pass' if bad is None else 'refuted', tier='B', backend='native',
                functions=['numqi.entangle.eof:get_concurrence_2qubit', 'numqi.entangle.eof:get_eof_2qubit', 'numqi.entangle.measure:get_gme_2qubit', 'numqi.entangle._misc:get_negativity',
                           'numqi.entangle.eof:get_concurrence_pure', 'numqi.entangle.eof:get_eof_pure'],
